@@ -2,7 +2,7 @@
 import os, sys, json, math, tempfile, shutil
 import vcommon as V
 sys.path.insert(0, os.path.join(V.VERIF, "gen"))
-import modgen
+import modgen, itdecomp, hashlib
 
 PT = modgen.PERIODS[12:48]      # the 36 Protracker periods C-1 .. B-3
 
@@ -71,7 +71,7 @@ def parse_load(block):
         elif w[0] == "EV": d["ev"][(int(w[1]), int(w[2]), int(w[3]))] = tuple(int(x) for x in w[4:11])
         elif w[0] == "INS": d["ins"][int(w[1])] = (int(w[2]), int(w[3]), bytes.fromhex(w[4]) if w[4] != "-" else b"")
         elif w[0] == "SUB": d["sub"][(int(w[1]), int(w[2]))] = tuple(int(x) for x in w[3:8])
-        elif w[0] == "SMP": d["smp"][int(w[1])] = (int(w[2]), int(w[3]), int(w[4]), int(w[5]), bytes.fromhex(w[6]) if w[6] != "-" else b"", bytes.fromhex(w[7]) if len(w) > 7 and w[7] != "-" else b"")
+        elif w[0] == "SMP": d["smp"][int(w[1])] = (int(w[2]), int(w[3]), int(w[4]), int(w[5]), bytes.fromhex(w[6]) if w[6] != "-" else b"", (bytes.fromhex(w[7]) if not w[7].startswith("md5:") else w[7]) if len(w) > 7 and w[7] != "-" else b"")
         elif w[0] == "LOADFAIL": d["fail"] = int(w[1])
     return d
 
@@ -126,8 +126,28 @@ def check_other(fmt, s, d):
             for c, cell in enumerate(row):
                 note = cell.get("note", 0) if cell else 0; ins = cell.get("ins", 0) if cell else 0
                 got = d["ev"].get((p, r, c), (0,) * 7)
-                if got[0] != (note + 12 if note else 0) or got[1] != ins:
-                    return "pattern %d row %d channel %d: note/instrument %d/%d, written %d/%d" % (p, r, c, got[0], got[1], note + 12 if note else 0, ins)
+                want = note + 12 if note else 0
+                if fmt == "xm" and note == 97:
+                    # XM key-off: XMP_KEY_OFF (0x81), or XMP_KEY_FADE (0x83) when the cell also carries an instrument number
+                    want = 0x83 if ins else 0x81
+                if got[0] != want or got[1] != ins:
+                    return "pattern %d row %d channel %d: note/instrument %d/%d, written %d/%d" % (p, r, c, got[0], got[1], want, ins)
+    if s.get("s3m_samples"):
+        import struct
+        for k, w in enumerate(s["s3m_samples"]):
+            sm = d["smp"].get(k)
+            if sm is None: return "sample %d missing" % k
+            vals = [v for pair in zip(w["left"], w["right"]) for v in pair] if w.get("stereo") else list(w["left"])
+            pcm = struct.pack("<%dh" % len(vals), *vals) if w["bits"] == 16 else bytes(v & 0xff for v in vals)
+            wantflg = (1 if w["bits"] == 16 else 0) | (2 if w.get("loop") else 0) | (128 if w.get("stereo") else 0)
+            if sm[0] != w["frames"]: return "sample %d length %d vs %d" % (k, sm[0], w["frames"])
+            if sm[3] & (1 | 2 | 128) != wantflg: return "sample %d flags %d vs %d" % (k, sm[3], wantflg)
+            if w.get("loop") and (sm[1], sm[2]) != tuple(w["loop"]): return "sample %d loop %d..%d vs %s" % (k, sm[1], sm[2], w["loop"])
+            if w["frames"] <= 4096 and sm[5] != pcm: return "sample %d PCM differs (%d-bit%s, %d frames%s)" % (k, w["bits"], " stereo" if w.get("stereo") else "", w["frames"], ", stored beyond 1 MiB" if w.get("far") else "")
+            if d["ins"].get(k, (0, 0, b"?"))[2] != w.get("name", "smp").encode(): return "instrument %d name %r" % (k, d["ins"].get(k))
+            sub = d["sub"].get((k, 0))
+            if sub is None or sub[0] != w.get("vol", 64) or sub[4] != k: return "instrument %d volume / sample mapping %s" % (k, sub)
+        return None
     sm = d["smp"].get(0)
     if sm is None or sm[0] != len(modgen.SAMPLE) or sm[5] != modgen.SAMPLE: return "sample 0: length %s or PCM differs from the written square wave" % (sm[0] if sm else None)
     if (sm[1], sm[2]) != (0, len(modgen.SAMPLE)) or not sm[3] & 2: return "sample 0 loop %d..%d flags %d" % (sm[1], sm[2], sm[3])
@@ -193,8 +213,24 @@ def main():
                 for pat in s["patterns"]:
                     for row in pat:
                         for c in range(len(row)):
-                            if rng.random() < 0.3: row[c] = dict(row[c] or {}, note=rng.randrange(1, 37) if fmt == "mod" else rng.randrange(1, 85), ins=1)
+                            if rng.random() < 0.3:
+                                note = rng.randrange(1, 37) if fmt == "mod" else rng.choice((1, 2, 95, 96, 97, 97)) if (fmt == "xm" and rng.random() < 0.2) else rng.randrange(1, 97) if fmt == "xm" else rng.randrange(1, 85)
+                                row[c] = dict(row[c] or {}, note=note, ins=rng.choice((0, 1)) if note == 97 else 1)
                 if fmt == "mod": s["name"] = "gen"
+                if fmt == "s3m" and rng.random() < 0.6:
+                    # storage variants of S3M samples: 8/16 bit, mono/stereo (left block then right block), odd and tiny lengths, loops,
+                    # and sample data placed beyond the first MiB of the file (24-bit parapointer)
+                    sl = []
+                    for k in range(rng.choice((1, 2, 4))):
+                        n = rng.choice((1, 2, 3, 5, 64, 129, 1001)); b16 = rng.random() < 0.5; st = rng.random() < 0.4
+                        lim = 32767 if b16 else 127
+                        sl.append(dict(frames=n, bits=16 if b16 else 8, stereo=st, left=[rng.randrange(-lim - 1, lim + 1) for _ in range(n)], right=[rng.randrange(-lim - 1, lim + 1) for _ in range(n)] if st else None,
+                                       loop=(0, n) if rng.random() < 0.4 else None, vol=rng.randrange(0, 65), c2spd=8363, name="smp%d" % k, far=(i % 40 == 1 and k == 0)))
+                    s["s3m_samples"] = sl
+                    for pat in s["patterns"]:
+                        for row in pat:
+                            for c in range(len(row)):
+                                if row[c] and row[c].get("ins"): row[c]["ins"] = rng.randrange(1, len(sl) + 1)
                 # what the formats can express: S3M / IT / MOD readers size the pattern table by the order list, so every pattern is referred to;
                 # an IT file has no channel count: it is the highest channel that carries data
                 missing = [p for p in range(len(s["patterns"])) if p not in s["orders"]]
@@ -237,12 +273,37 @@ def main():
                     ck.nontrivial((fmt, json.dumps(s, sort_keys=True)))
             if r.returncode != 0:
                 ck.violation({"engine": "writers", "broken": "sanitizer report / crash while loading a written file", "stderr": r.stderr[-2000:]}, key="c19-crash")
+        # ---- (c) the corpus's IT files: every sample's PCM as an independent reader of the IT sample formats (incl. IT 2.14 / 2.15
+        #          compression, gen/itdecomp.py) predicts it vs what libxmp loaded
+        if not rp or rp.get("engine") == "itsamples":
+            its = [f for f in V.corpus_files() if f.lower().endswith(".it")] if not rp else [os.path.join(V.REPO, rp["file"])]
+            r = V.run([drv], inp="\n".join(its) + "\n", env=env, timeout=3000)
+            blocks = []; cur = []
+            for l in r.stdout.split("\n"):
+                cur.append(l)
+                if l == "ENDLOAD" or l.startswith("LOADFAIL"):
+                    blocks.append("\n".join(cur)); cur = []
+            for f, blk in zip(its, blocks):
+                d = parse_load(blk)
+                if "fail" in d: continue
+                for (k, length, flags, b16, st, comp, pcm) in itdecomp.it_samples(open(f, "rb").read()):
+                    smp_lines = [l.split() for l in blk.split("\n") if l.startswith("SMP %d " % k)]
+                    if not smp_lines: continue
+                    w = smp_lines[0]; ln = int(w[2]); dat = w[7] if len(w) > 7 else "-"
+                    ck.count(); stats["it_samples"] = stats.get("it_samples", 0) + 1; stats["it_compressed"] = stats.get("it_compressed", 0) + (1 if comp else 0)
+                    want = pcm.hex() if ln <= 4096 else "md5:" + hashlib.md5(pcm).hexdigest()
+                    if ln != length or dat != want:
+                        ck.violation({"engine": "itsamples", "file": os.path.relpath(f, V.REPO), "sample": k,
+                                      "what": "sample %d (%d frames, %d-bit%s%s): loaded length %d, PCM %s" % (k, length, 16 if b16 else 8, " stereo" if st else "", " compressed" if comp else "", ln, "differs" if ln == length else "n/a"),
+                                      "broken": "libxmp's IT sample decoding vs an independent reader of the format"}, key="c19:it:sample")
+                    else:
+                        ck.nontrivial(("it", f, k))
     finally:
         shutil.rmtree(tmpd, ignore_errors=True)
     ck.engine_stat("modcodec", **stats)
     ck.cov["rule"] = ("(a) random abstract M.K. songs (titles, 31 instrument headers with lengths / finetunes / volumes / loops, order lists of 1..128 entries, 1-5 patterns of random periods, instrument numbers 0..31 and effects, random sample bytes) "
                       "encoded by the extracted, proved writer (song_okb and decode(encode s) = s re-evaluated by the extracted code), loaded by libxmp and compared field by field, cell by cell, byte by byte; "
-                      "(b) random songs through the independent Python writers for XM (packed patterns, delta samples), S3M (packed patterns, unsigned samples), IT and MOD: channels, order list, initial speed/tempo, title, pattern sizes, note and instrument of every cell, sample length / loop / PCM")
+                      "(b) random songs through the independent Python writers for XM (packed patterns, delta samples), S3M (packed patterns, unsigned samples), IT and MOD: channels, order list, initial speed/tempo, title, pattern sizes, note and instrument of every cell, sample length / loop / PCM; XM notes over the whole range 1..96 and key-off; S3M samples in every storage variant (8/16-bit, mono / stereo blocks, odd and tiny lengths, loops, data beyond the first MiB); (c) every sample of the corpus IT files (plain and IT 2.14 / 2.15 compressed, 8/16-bit, mono/stereo) against an independent reader of the format (gen/itdecomp.py)")
     ck.assumptions += ["only the M.K. layout is proved (decode_encode); the XM / S3M / IT writers are independent Python code tied by the differential only, with uncompressed 8-bit mono samples and one instrument",
                        "libxmp's note numbering is taken from src/period.c (period -> note formula) and the format loaders' documented offsets (+12 for XM / S3M / IT notes)"]
     ck.finish()
